@@ -405,6 +405,17 @@ where
                 }
             })
             .collect();
+        // exact ties: hard-decision style inputs (a few distinct magnitudes, exactly representable), so that several
+        // extrinsic values share the smallest magnitude and the rule has to break the tie like the flooding rule does
+        let (vars0, old) = if !i8t && rng.chance(0.2) {
+            let mags = [0.75, 1.5, 2.25, 3.0];
+            let nm = rng.range(1, 3);
+            let v: Vec<f64> = (0..nvars).map(|_| mags[rng.below(nm)] * rng.sign()).collect();
+            let o: Vec<f64> = if rng.coin() { vec![0.0; d] } else { (0..d).map(|_| *rng.pick(&[0.0, 0.5, -0.5, 0.75])).collect() };
+            (v, o)
+        } else {
+            (vars0, old)
+        };
         // extrinsics in the arithmetic's own precision
         let ext: Vec<f64> = (0..d)
             .map(|j| {
